@@ -31,6 +31,35 @@ def seed_documents(rng, n):
     evs.append(G.event_xml('parent', '/s/', [('k', 'abc')]))
     docs.append(('base', G.document([OL.onto_xml(b)] + evs)))
     docs.append(('two-ontologies', G.document([OL.onto_xml(b), evs[1], OL.onto_xml(OL.ONTO(object_types=[OL.OT('zz', 'number:int')], sources=[OL.SOURCE('/z/')])), evs[2]])))
+    # a later ontology element that edits the first one: every edit of the catalogue (acceptable or not), with and without a new version
+    for e in OL.edit_catalogue():
+        for bump in (2, None):
+            try:
+                up = OL.apply_edits(b, [e], bump)
+            except Exception:
+                continue
+            docs.append(('upgrade:%s@%s' % (e[1], bump or 1), G.document([OL.onto_xml(b), evs[0], OL.onto_xml(up), evs[0], evs[2]])))
+    # the same on a small event type whose properties no other definition refers to: properties renamed / dropped / added in any combination
+    import copy as _copy
+    small = OL.ONTO(object_types=[OL.OT('o')], sources=[OL.SOURCE('/s/')],
+                    event_types=[OL.ET('ea', [OL.PROP('p', 'o', optional=True, multivalued=True), OL.PROP('q', 'o', optional=True, multivalued=True)])])
+    ev_small = G.event_xml('ea', '/s/', [('p', 'x'), ('q', 'y')])
+    new_prop = {'optional': OL.PROP('r', 'o', optional=True), 'mandatory': OL.PROP('r', 'o'), 'none': None}
+    for drop in (None, 'q', 'p'):
+        for add in ('none', 'optional', 'mandatory'):
+            for extra in (False, True):
+                for version in (2, 1):
+                    up = _copy.deepcopy(small)
+                    et = up['event-types'][0]
+                    et['version'] = version
+                    if drop:
+                        et['properties'] = [x for x in et['properties'] if x['name'] != drop]
+                    if new_prop[add]:
+                        et['properties'].append(_copy.deepcopy(new_prop[add]))
+                    if extra:
+                        et['properties'].append(OL.PROP('s', 'o', optional=True))
+                    label = 'upgrade:small/drop-%s/add-%s%s@%d' % (drop, add, '+optional' if extra else '', version)
+                    docs.append((label, G.document([OL.onto_xml(small), ev_small, OL.onto_xml(up), ev_small])))
     for i in range(n):
         text = c08lib.gen_ontology(rng)
         docs.append(('generated-%d' % i, G.document([text, G.event_xml('ta', '/s/', [('p', 'value %d' % i)])])))
@@ -124,7 +153,8 @@ def run_parser(kind, data, cuts=None, timeout=5):
     from edxml.error import EDXMLError
     from edxml.event_validator import EventValidator
     delivered = []
-    cls = EDXMLPullParser if kind == 'pull' else EDXMLPushParser
+    cls = EDXMLPullParser if kind.startswith('pull') else EDXMLPushParser
+    reused = kind.endswith('-reused')
 
     class P(cls):
         def _parsed_ontology(self, o):
@@ -146,10 +176,19 @@ def run_parser(kind, data, cuts=None, timeout=5):
     old = signal.signal(signal.SIGALRM, _alarm)
     signal.alarm(timeout)
     try:
-        if kind == 'pull':
-            P().parse(io.BytesIO(data))
+        p = P()
+        if reused:
+            # the same parser instance has read another (valid, smaller) document before
+            if kind.startswith('pull'):
+                p.parse(io.BytesIO(FIRST_DOCUMENT))
+                p.close()
+            else:
+                p.feed(FIRST_DOCUMENT)
+                p.close()
+            del delivered[:]
+        if kind.startswith('pull'):
+            p.parse(io.BytesIO(data))
         else:
-            p = P()
             prev = 0
             for c in cuts or [len(data)]:
                 p.feed(data[prev:c])
@@ -172,6 +211,9 @@ def run_parser(kind, data, cuts=None, timeout=5):
 
 
 _SCHEMA = []
+FIRST_DOCUMENT = G.document([OL.onto_xml(OL.ONTO(object_types=[OL.OT('o')], event_types=[OL.ET('parent', [OL.PROP('k', 'o', merge='match')])],
+                                                 sources=[OL.SOURCE('/s/', **{'date-acquired': '20200101'})])),
+                             G.event_xml('parent', '/s/', [('k', 'first document')])])
 
 
 def reference_items(data):
@@ -303,10 +345,22 @@ def main(argv):
     docs = seed_documents(rng, ck.budget(4, 20))
     per_doc = ck.budget(120, 1500)
     for name, data in docs:
+        if name.startswith('upgrade:'):
+            for kind, cuts in (('pull', None), ('push', [len(data) // 3, 2 * len(data) // 3, len(data)]), ('pull-reused', None), ('push-reused', [len(data) // 2, len(data)])):
+                res = run_parser(kind, data, cuts)
+                ck.cov['evaluations'] += 1
+                ck.dist('upgrade-document:' + res['outcome'])
+                judge(ck, name, [name], data, kind, cuts, res)
+            continue
         base = run_parser('pull', data)
         if base['outcome'] != 'ok':
             ck.dist('seed-document:not-accepted')
             continue
+        for kind, cuts in (('pull-reused', None), ('push-reused', [len(data) // 2, len(data)])):
+            res = run_parser(kind, data, cuts)
+            ck.cov['evaluations'] += 1
+            ck.dist('reused-parser:' + res['outcome'])
+            judge(ck, name, ['parser-reused'], data, kind, cuts, res)
         ck.dist('seed-document:accepted')
         for _ in range(per_doc):
             nf = rng.choice([1, 1, 1, 2, 3])
